@@ -49,6 +49,16 @@ def run(rep, tier):
     for _ in range(N):
         prof = gencirc.Profile(noise=True, measure_noise=True, heralded=True, annotations=False, len_range=(5, 20), n_choices=[1, 2, 3, 4])
         n, body = gencirc.gen_circuit(rng, gates, prof)
+        if rng.random() < 0.15:
+            # nested loops with noise in the outer body before the inner loop: the matcher's stack frames (iteration index of the
+            # enclosing loop after returning from the nested one) are only visible in this shape
+            def piece(lo, hi):
+                pp = gencirc.Profile(noise=True, measure_noise=True, heralded=False, annotations=False, len_range=(lo, hi), n_choices=[n])
+                pp.repeat = False
+                return gencirc.gen_circuit(rng, gates, pp)[1]
+            inner = piece(2, 4)
+            outer = piece(1, 3) + [stimtext.Instr('REPEAT', body=inner, reps=rng.choice([1, 2, 3]))] + (piece(1, 2) if rng.random() < 0.5 else [])
+            body = (piece(1, 3) if rng.random() < 0.5 else []) + [stimtext.Instr('REPEAT', body=outer, reps=rng.choice([2, 3, 4]))] + piece(1, 3)
         body = c03.restrict_noise(rng, body, 'approx')
         if rng.random() < 0.4:
             body = c03.add_else_chain(rng, body)
